@@ -204,8 +204,10 @@ CLAIMED = {
         text='AsyncFS.read_range opens open_from(url, start, length=n) and returns readexactly(n) with n = end-start(+1 if inclusive); open_from routes length 0 to EmptyReadableStream and forwards url/start/length unchanged otherwise (router likewise); '
         'GCS and S3 _open_from send Range "bytes=<start>-" / "bytes=<start>-<start+length-1>" (string terms compared with the specification by congruence), S3 maps InvalidRange to UnexpectedEOFError; '
         'local: _open_from seeks to start and wraps the file in TruncatedReadableBinaryIO(length); TruncatedReadableBinaryIO.read keeps 0 <= offset <= limit and returns min(request, window, file); _ReadableStreamFromBlocking._readexactly (loop invariant) returns exactly n contiguous bytes or raises; '
-        'Azure: _open_from builds the stream with offset=start,length=length; every download_blob request of AzureReadableStream.read starts at the first byte not yet handed out and ends at the end of the window (failed before the fix: commit 23c8b8681), readexactly returns n bytes or raises.',
-        note=COMMON_NOTE + 'Assumed: RFC 7233 range semantics of the GCS/S3 servers, the Azure SDK download_blob(offset, length) contract, Python file read(k) returning min(k, remaining) bytes, aiohttp StreamReader.readexactly. Byte contents are abstract (positions and lengths are tracked); the Azure buffer logic is under a length-level contract only.',
+        'Azure: _open_from builds the stream with offset=start,length=length; every download_blob request of AzureReadableStream.read starts at the first byte not yet handed out and ends at the end of the window (failed before the fix: commit 23c8b8681), readexactly returns n bytes or raises; read(n) turns the 416 of a range starting at or after the end of the blob into UnexpectedEOFError (helpers of the stream are inlined from their real bodies). '
+        'GCS request path (wave 4): GoogleStorageClient.get_object, BaseSession.get, Session.request (no session-wide params), RateLimitedSession.request and the retry loop of Session._request_with_valid_authn (loop invariant) pass method, url, params and EVERY caller header - the Range header - unchanged to the wire, with or without authentication headers; get_object maps 416 to UnexpectedEOFError. '
+        'TruncatedReadableBinaryIO.seek: the window bookkeeping offset == file position - window start is preserved by SEEK_CUR and by read; the SEEK_SET / SEEK_END clauses and "a successful seek lands inside the window" FAIL on the unchanged code and are a recorded known finding (replayed; coordinate system is a maintainer decision).',
+        note=COMMON_NOTE + 'Assumed: credentials produce authentication headers only (never a caller key), io seek/read contract of the underlying file, 416 for ranges starting at or after the end. Undecided: Azure read(-1) lets that 416 escape unmapped (no clause claimed for unbounded reads). Assumed: RFC 7233 range semantics of the GCS/S3 servers, the Azure SDK download_blob(offset, length) contract, Python file read(k) returning min(k, remaining) bytes, aiohttp StreamReader.readexactly. Byte contents are abstract (positions and lengths are tracked); the Azure buffer logic is under a length-level contract only.',
         technique='contracts on the real methods (with-protocol, loop invariant, string terms), pyvc -> z3',
         design_ref='7/C23',
     ),
